@@ -1,9 +1,9 @@
 SPECIFICATION Spec
 CONSTANTS
-  MaxN = 3
-  MaxV = 3
-  MaxW = 3
-  A = 8
+  MaxN = 2
+  MaxV = 1
+  MaxW = 2
+  A = 4
   Scales = {1, 2, 3}
   Swapped = TRUE
 INVARIANT Found
